@@ -948,6 +948,11 @@ theorem getDt_uses_current_index (adjust : GState α → GState α) (maxDiss rem
   unfold Grain.getDt
   rw [← postProcess_index_current adjust maxDiss x s hM]
 
+/-- `reset()` / `LoadDistribution…` leave the index of the state they leave (repair 7e7d99f; before it `reset` stored 0,
+which is stale whenever the restored distribution has a positive index — `reset_zero_index_was_stale`) -/
+theorem reset_index_current (maxDiss : α) (s : GState α) :
+    (Grain.reset maxDiss s).index = stateIndex maxDiss (Grain.reset maxDiss s).state := rfl
+
 /-- a stored state from lists (class centres = midpoints of the boundaries, as `PSDsize`) -/
 def ofLists (psd bounds : List ℚ) : GState ℚ :=
   { n := psd.length, psd := fun i => psd.getD i 0, bounds := fun i => bounds.getD i 0,
@@ -969,6 +974,12 @@ theorem rebin_changes_index :
     stateIndex (1/10) (ofLists wOldPsd wOldBounds) = 1 ∧
     stateIndex (1/10) (ofLists (Grid.remeshRaw wOldPsd wOldBounds wNewBounds) wNewBounds) = 0 := by
   constructor <;> decide +kernel
+
+/-- the index 0 that `reset()` stored before the repair is not the index of the witness distribution -/
+theorem reset_zero_index_was_stale : (Grain.reset (1/10 : ℚ) (ofLists wOldPsd wOldBounds)).index ≠ 0 := by
+  rw [reset_index_current]
+  show stateIndex (1/10) (ofLists wOldPsd wOldBounds) ≠ 0
+  rw [rebin_changes_index.1]; decide
 
 /-- growth rates at the three faces of the re-binned witness grid (shrinking small grains, growing large ones) -/
 def wGrowth : Nat → ℚ := fun j => if j = 0 then -4 else if j = 1 then -2 else 1
